@@ -218,6 +218,11 @@ func ParseVpsSpsPpsFromSeqHeader(payload []byte) (vps, sps, pps []byte, err erro
 }
 
 func ParseVpsSpsPpsFromEnhancedSeqHeader(payload []byte) (vps, sps, pps []byte, err error) {
+	// 和ParseVpsSpsPpsFromSeqHeaderWithoutMalloc保持一致，record至少需要33字节，否则parseVpsSpsPpsFromRecord会越界
+	if len(payload) < 33 {
+		return nil, nil, nil, nazaerrors.Wrap(base.ErrHevc)
+	}
+
 	packetType := payload[0] & 0x0f
 
 	if packetType == 0 {
